@@ -93,9 +93,30 @@ func r132(c *Ctx, r *R) {
 	if esc {
 		r.Und("adder.Pin:escapes", p.Pos(), "adder.Pin is used as a value")
 	}
+	// ... or in an unexported helper that only they call (a piece of the
+	// finaliser extracted into its own function)
+	var pieceOf func(g *ssa.Function, depth int) bool
+	pieceOf = func(g *ssa.Function, depth int) bool {
+		if allowed[g.String()] {
+			return true
+		}
+		if depth > 3 || g.Object() == nil || g.Object().Exported() {
+			return false
+		}
+		ss, e := c.callSitesOf(g)
+		if e || len(ss) == 0 {
+			return false
+		}
+		for _, s := range ss {
+			if s.Parent() == g || !pieceOf(s.Parent(), depth+1) {
+				return false
+			}
+		}
+		return true
+	}
 	for _, s := range sites {
 		n := s.Parent().String()
-		r.Check(allowed[n], "pin-caller:"+n, s.Pos(), "pinning happens in a finaliser / shard flush", n+" pins through the adder outside the finalisers: content can be pinned before it is complete")
+		r.Check(pieceOf(s.Parent(), 0), "pin-caller:"+n, s.Pos(), "pinning happens in a finaliser / shard flush", n+" pins through the adder outside the finalisers: content can be pinned before it is complete")
 	}
 	// nothing else in the adder packages calls Cluster.Pin directly
 	for _, rs := range c.RPC {
@@ -170,11 +191,21 @@ func r133(c *Ctx, r *R) {
 					}
 				}
 			})
+			// the destinations handed to the block adder: BlockAllocate's
+			// answer, or something else only in local mode (one call with
+			// the value chosen beforehand, or one call per case)
+			isLocal := func(g Guard) bool { return gField(g, "local", true) }
+			nAlloc, nOther := 0, 0
 			for _, ci := range findCalls(add, false, "adder.NewBlockAdder") {
-				if cc, idx := originCall(ci.Common().Args[1]); cc == alloc && idx == 0 {
-					okBA = true
+				for _, lf := range valueLeaves(ci.Common().Args[1], ci.Block()) {
+					if cc, idx := originCall(lf.Val); cc == alloc && idx == 0 {
+						nAlloc++
+					} else if !lf.GuardedBy(isLocal) && !guardedBy(ci.Block(), isLocal) {
+						nOther++
+					}
 				}
 			}
+			okBA = nAlloc > 0 && nOther == 0
 		}
 		r.Check(okRec && okBA, "single:blocks-to-allocations", add.Pos(), "blocks are sent to BlockAllocate's answer, which is recorded for the pin", fmt.Sprintf("single.Add does not both record BlockAllocate's answer (%v) and send blocks there (%v)", okRec, okBA))
 	}
@@ -290,8 +321,10 @@ func r134(c *Ctx, r *R) {
 	fin := c.fn(r, "adder/sharding", "DAGService.Finalize")
 	if fin != nil {
 		n := 0
-		for _, ci := range findCalls(fin, false, "adder.Pin") {
-			st := storedFieldsOf(fin, ci.Common().Args[2])
+		for _, dc := range findCallsDeep(fin, "adder.Pin") {
+			// (in Finalize or in a helper extracted from it)
+			ci := dc.Inner
+			st := storedFieldsOf(ci.Parent(), ci.Common().Args[2])
 			_, hasRef := st["Reference"]
 			switch {
 			case isConst(st["Type"], dagT):
